@@ -14,6 +14,7 @@ func init() {
 		knobs: func() Knobs {
 			k := DefaultKnobs()
 			k.NoFaults, k.PFault, k.PErr, k.PPanic = false, 30, 55, 30
+			k.PFaultKind = 25
 			k.PRecover = 65
 			k.WInvoke = 11
 			k.WDecorate = 4
@@ -35,6 +36,7 @@ func init() {
 		knobs: func() Knobs {
 			k := DefaultKnobs()
 			k.NoFaults, k.PFault, k.PErr, k.PPanic = false, 28, 55, 40
+			k.PFaultKind = 45
 			k.PRecover = 50
 			k.PHole = 60
 			k.PAvail = 90
@@ -60,6 +62,7 @@ func init() {
 		Gen: func(t *rapid.T, thorough bool) *Case {
 			bk := DefaultBankKnobs()
 			bk.PCallback, bk.PFault, bk.PPanic, bk.PDur = 65, 25, 35, 80
+			bk.PFaultKind = 30
 			bk.WInvoke, bk.WDecorate = 8, 3
 			bk.PDeep, bk.PChain = 70, 50
 			bk.MaxOps = 20
